@@ -52,7 +52,7 @@ func RunElemSize(conf core.Config) *core.Result {
 	for _, f := range pkg.Syntax {
 		for _, d := range f.Decls {
 			gd, ok := d.(*ast.GenDecl)
-			if !ok || gd.Tok != token.VAR {
+			if !ok || (gd.Tok != token.VAR && gd.Tok != token.CONST) {
 				continue
 			}
 			for _, s := range gd.Specs {
